@@ -3,8 +3,8 @@ from props import _rtb
 LEVEL = 'exploration'
 PID = 'C05'
 SCRIPT = 'b_c05.py'
-SPEC = {'quick': {'designs': 150, 'styles': 2, 'files': {'edif': 7000}, 'limit': 20, 'file_limit': 60},
-        'thorough': {'designs': 2500, 'styles': 2, 'files': {'edif': 600000}, 'limit': 20, 'file_limit': 240}}
+SPEC = {'quick': {'designs': 150, 'styles': 4, 'files': {'edif': 70000}, 'limit': 20, 'file_limit': 60},
+        'thorough': {'designs': 2500, 'styles': 2, 'files': {'edif': 2400000}, 'limit': 20, 'file_limit': 400}}
 RULE = ('case = (seeded abstract design, style) rendered by the independent EDIF writer (native/render_edif.py) and read by '
         'sdn.parse, or one bundled .edf archive; distinct = sha1 of AD+style / archive name; non-trivial = the design has at least one '
         'instance, one connected net and one bus (array port or multi-bit net); bundled archives count when they parse')
@@ -15,7 +15,7 @@ def run(rep, tier, seed):
                        '(libraries, cells, ports, instances with typed properties, per-bit joins, top, identifier + original name), '
                        'Inv I1-I4 and self-containment of the result; bundled examples parse + Inv')
     rep.assumptions.append('tier B: everything outside the stated bounds is unexplored; array nets (net (array ..)) are not generated (outside the supported subset)')
-    _rtb.run(rep, PID, SCRIPT, tier, seed, SPEC, RULE)
+    _rtb.run(rep, PID, SCRIPT, tier, seed, SPEC, RULE, gen_bounds=_rtb.HIER_BOUNDS)
 
 
 def replay(path):
